@@ -503,14 +503,14 @@ def run(ctx):
         # plus a quarter of the length-4 sequences, rotating with the seed
         cases += [c for i, c in enumerate(sweep_cases(4, minlen=4)) if i % 4 == ctx.seed % 4]
         extra_note = " (quick: plus 1/4 of the length-4 sequences)"
-    ctx.sweep(cases, check_case)
+    ctx.sweep(cases, check_case, timeout=4 * 3600)
     ctx.extra["sweep_cases"] = len(cases)
     ctx.exhaustive = True
     ctx.bound = (
         f"all sequences of <= {maxlen} operations over {{create, read a, read b, read c, save, drop, checkpoint, configure a}} "
         "(a,b share key k2) inside one run, each followed by a fixed create/read a/read c/save" + extra_note
     )
-    ctx.hyp(strategy, check_case, max_examples=ctx.pick(4000, 40000), tag="c15")
+    ctx.hyp(strategy, check_case, max_examples=ctx.pick(4000, 40000), timeout=4 * 3600, tag="c15")
 
 
 def replay(case):
